@@ -38,6 +38,28 @@ Theorem reassembly_split_indep_net2_channels :
   exists out, read_all chan_dec segs = Ok (out, []) /\ forall c, on_channel c out = ms c.
 Proof. intros M valid enc chan_dec Hco ms segs. exact (read_all_ok valid enc chan_dec Hco segs ms). Qed.
 
+(* cancellation safety (old stack): a consumer that polls recv_full_msg under a timeout /
+   select! and abandons the call whenever it would wait, at ANY points between segment
+   arrivals and any number of times, and finally waits, gets exactly the messages - the
+   pending bytes are state of the ChannelBuffer (self.temp), not of the abandoned call *)
+Theorem recv_cancellation_safe :
+  forall (M : Type) (valid : M -> Prop) (enc : M -> list Z) (dec : list Z -> dec_result M),
+  codec_ok valid enc dec ->
+  forall ms evs, Forall valid ms -> concat (arrivals evs) = concat (map enc ms) ->
+  drive_then_wait dec evs = (ms, Ok []).
+Proof. intros M valid enc dec Hco ms evs. exact (drive_then_wait_ok valid enc dec Hco ms evs). Qed.
+
+(* ... and at every intermediate point the polls have returned a prefix of the messages and
+   temp ++ queued chunks is exactly the encoding of a prefix of the rest *)
+Theorem recv_cancellation_invariant :
+  forall (M : Type) (valid : M -> Prop) (enc : M -> list Z) (dec : list Z -> dec_result M),
+  codec_ok valid enc dec ->
+  forall evs ms temp queued, Forall valid ms ->
+  temp ++ concat queued ++ concat (arrivals evs) = concat (map enc ms) ->
+  exists out1 ms2 t q, drive dec temp queued evs = (out1, Ok (t, q)) /\
+                       ms = out1 ++ ms2 /\ t ++ concat q = concat (map enc ms2).
+Proof. intros M valid enc dec Hco evs ms temp queued. exact (drive_ok valid enc dec Hco evs ms temp queued). Qed.
+
 (* the old stack's own sender feeding its receiver *)
 Theorem send_recv_roundtrip :
   forall (M : Type) (valid : M -> Prop) (enc : M -> list Z) (dec : list Z -> dec_result M),
